@@ -33,7 +33,7 @@ let handle (toks : string list) : string =
        | [ []; ops; obs ] | [ ops; obs ] ->
            let c = { size = zs size; ooo = zs ooo; lateness = zs late; idle = Z0 } in
            let hops = parse_ops (zs base) ops in
-           let model = show_trace (C01.run_hops c hops) in
+           let model = show_trace (run_hops c hops) in
            let impl = String.concat " " obs in
            let tbl = Hashtbl.create 64 in
            let tr = parse_trace tbl obs in
@@ -43,6 +43,22 @@ let handle (toks : string list) : string =
             | None ->
                if model <> impl then "diff tumbling_trace model=" ^ model
                else if List.exists (function EvBatch b -> List.length b.b_rows >= 2 | _ -> false) tr then "ok nt" else "ok")
+       | _ -> "bad line")
+  | "S" :: size :: slide :: ooo :: late :: base :: rest ->
+      (match split_hash rest with
+       | [ []; ops; obs ] | [ ops; obs ] ->
+           let c = { ssize = zs size; sslide = zs slide; sooo = zs ooo; slateness = zs late } in
+           let hops = parse_ops (zs base) ops in
+           let model = show_trace (run_shops c hops) in
+           let impl = String.concat " " obs in
+           let tbl = Hashtbl.create 64 in
+           let tr = parse_trace tbl obs in
+           let c0 = { size = zs size; ooo = zs ooo; lateness = zs late; idle = Z0 } in
+           (match chk_C02_sliding c (zs base) tr with
+            | Some STooLateCounted -> "chk too_late_counted " ^ too_late_kind c0 (zs base) tr ^ (if model <> impl then " (and model differs)" else "")
+            | Some cl -> "chk " ^ string_of_sclause cl
+            | None -> if model <> impl then "diff sliding_trace model=" ^ model
+                      else if List.exists (function EvBatch b -> List.length b.b_rows >= 2 | _ -> false) tr then "ok nt" else "ok")
        | _ -> "bad line")
   | _ -> "bad line"
 
